@@ -3,7 +3,7 @@ if ! git -C /repo diff --quiet; then echo 'refusing: /repo has uncommitted chang
 # Apply a seeded change to /repo, run one check, undo. Usage: try_seed.sh <seed> <Cxx> [tier]
 S=$1; C=$2; T=${3:-quick}
 cd /repo && git apply /verif/seeded/$S/patch.diff || exit 2
-cd /verif && timeout 3000 ./run.sh $C $T > /tmp/try_$S.out 2>&1; rc=$?
+rm -rf /tmp/tryout && mkdir -p /tmp/tryout && cp /verif/known_findings.json /tmp/tryout/ && cd /verif && VERIF_DIR=/tmp/tryout timeout 3000 ./run.sh $C $T > /tmp/try_$S.out 2>&1; rc=$?
 git -C /repo checkout -- .
 (cd /verif && ./run.sh build >/dev/null 2>&1)  # never leave a binary built from the changed tree behind
 grep -E "^(VIOLATION|OK|KNOWN|BUILD)" /tmp/try_$S.out | head -5
